@@ -2,13 +2,15 @@
 //! timers only (no sockets). Serves C05 (clocks), C11 (run result) and the
 //! scheduling part of C04 (crash / bounce).
 //!
-//! case = {"id", "cfg": {tick_ns, duration_ns, epoch_ms, random_order, seed},
+//! case = {"id", "cfg": {tick_ns, duration_ns, epoch_ns | epoch_ms, random_order, seed},
 //!         "script": [ev ..]}
 //! ev   = ["client", prog] | ["host", [prog ..]]      (registered as n0, n1, .. in script order;
 //!                                                      a host uses progs[min(incarnation, len-1)])
 //!      | ["step"] | ["run"] | ["crash", sel] | ["bounce", sel] | ["probe"]
 //! sel  = {"h": i} | {"ip": i} | {"re": "regex"}
-//! prog = {"main": [op ..], "end": "ok"|"err"|"panic"|"never",
+//! prog = {"main": [op ..], "end": "ok"|"err"|"err_io"|"err_cancelled"|"err_joinpanic"|"panic"|"never",
+//!         (err: a string error; err_io: an io::Error; err_cancelled: the JoinError of a worker task
+//!          the software aborted; err_joinpanic: the JoinError of a worker that panicked)
 //!         "tasks": [{"ops": [op ..], "end": "ok"|"panic"|"never"} ..], "ticker": bool}
 //! op   = ["sleep", ns] | ["obs"] | ["timeout", limit_ns, inner_ns] | ["interval", period_ns, n]
 //!
@@ -144,6 +146,27 @@ async fn software(sh: Rc<Shared>, host: usize, inc: u64, prog: Value, tick: Dura
     match prog["end"].as_str().unwrap_or("ok") {
         "ok" => Ok(()),
         "err" => Err("scripted error".into()),
+        "err_io" => Err(std::io::Error::new(std::io::ErrorKind::ConnectionReset, "scripted io error").into()),
+        "err_cancelled" => {
+            // a supervisor whose worker is aborted propagates `worker.await?`
+            let worker = tokio::task::spawn_local(std::future::pending::<()>());
+            worker.abort();
+            let je = worker.await.expect_err("aborted worker");
+            assert!(je.is_cancelled());
+            Err(je.into())
+        }
+        "err_joinpanic" => {
+            // the JoinError of a worker that panicked; produced on a runtime of its own (another
+            // thread, joined at once) so that this host's runtime does not see an unhandled panic
+            let je = std::thread::spawn(|| {
+                let rt = tokio::runtime::Builder::new_current_thread().build().unwrap();
+                rt.block_on(async { tokio::spawn(async { panic!("worker panic") }).await.expect_err("panicked worker") })
+            })
+            .join()
+            .unwrap();
+            assert!(je.is_panic());
+            Err(je.into())
+        }
         "panic" => panic!("scripted main panic"),
         _ => {
             std::future::pending::<()>().await;
@@ -184,22 +207,23 @@ fn err_class(e: &dyn std::fmt::Display) -> &'static str {
     let s = e.to_string();
     if s.starts_with("Ran for duration") {
         "duration"
-    } else if s.contains("scripted error") {
-        "software"
     } else {
-        "other"
+        "software"
     }
 }
 
 fn run_case(case: &Value) -> Value {
     let cfg = &case["cfg"];
     let tick = Duration::from_nanos(cfg["tick_ns"].as_u64().unwrap());
-    let epoch_ms = cfg["epoch_ms"].as_u64().unwrap_or(1_000_000);
+    // the configured epoch: nanoseconds since UNIX_EPOCH ("epoch_ns"), or whole ms ("epoch_ms")
+    let epoch_ns: u64 = cfg["epoch_ns"]
+        .as_u64()
+        .unwrap_or_else(|| cfg["epoch_ms"].as_u64().unwrap_or(1_000_000) * 1_000_000);
     let mut b = turmoil::Builder::new();
     b.rng_seed(cfg["seed"].as_u64().unwrap_or(1))
         .tick_duration(tick)
         .simulation_duration(Duration::from_nanos(cfg["duration_ns"].as_u64().unwrap()))
-        .epoch(UNIX_EPOCH + Duration::from_millis(epoch_ms));
+        .epoch(UNIX_EPOCH + Duration::from_nanos(epoch_ns));
     if cfg["random_order"].as_bool().unwrap_or(false) {
         b.enable_random_order();
     }
@@ -311,7 +335,7 @@ fn run_case(case: &Value) -> Value {
         "evs": evs,
         "log": *sh.log.borrow(),
         "drops": *sh.drops.borrow(),
-        "epoch_ns": epoch_ms * 1_000_000,
+        "epoch_ns": epoch_ns,
         "panic": Value::Null,
     });
     // The Sim is dropped outside any world; destructors of still-running
